@@ -169,6 +169,22 @@ func (c *Ctx) forward(srcs []ssa.Value, through func(call *ssa.Call, argIdx int)
 				for i, rv := range x.Results {
 					if rv == v {
 						res.Rets[retUse{x, i}] = true
+						// out of a library helper: the value continues as the corresponding result at every static call
+						if g := x.Parent(); g != nil && !ssax.IsParserSig(g.Signature) && c.P.InLib(g) {
+							for _, e := range c.P.Callers(g) {
+								site, ok := e.Site.(*ssa.Call)
+								if !ok || site.Call.StaticCallee() != g {
+									continue
+								}
+								if len(x.Results) == 1 {
+									push(site)
+								} else {
+									for _, ex := range ssax.Extracts(site, i) {
+										push(ex)
+									}
+								}
+							}
+						}
 					}
 				}
 			}
